@@ -61,6 +61,9 @@ func ideal(sc *scn.Scenario, merge bool) *scn.Result {
 			return
 		}
 		w := scn.Write{Text: l.Text, Sev: l.Sev, File: file(l.Pkg), Line: 30 + 2*l.Sev}
+		if strings.Contains(l.Text, ".") { // logged by the tracer handler (traced or not): its call sites
+			w.Line = 80 + 2*l.Sev
+		}
 		if merge {
 			w.Dups = uint64(times - 1)
 			res.Writes = append(res.Writes, w)
@@ -81,20 +84,29 @@ func ideal(sc *scn.Scenario, merge bool) *scn.Result {
 					case scn.OpLines:
 						emit(ev.Line, ev.Times)
 					case scn.OpTracer:
+						n := len(ev.Trace)
+						main := ev.Trace[n-1]
+						if ev.EchoBefore > 0 {
+							emit(main, ev.EchoBefore)
+						}
 						if !cfg.on(1, ev.Pkg) {
 							for _, l := range ev.Trace {
 								emit(l, 1)
 							}
+							if ev.EchoAfter > 0 {
+								emit(main, ev.EchoAfter)
+							}
 							continue
 						}
-						n := len(ev.Trace)
-						main := ev.Trace[n-1]
-						w := scn.Write{Text: main.Text, Sev: main.Sev, File: file(ev.Pkg), Line: 60}
+						w := scn.Write{Text: main.Text, Sev: main.Sev, File: file(ev.Pkg), Line: 80 + 2*main.Sev}
 						for _, l := range ev.Trace[:n-1] {
 							w.Trace = append(w.Trace, fmt.Sprintf("\x1b[34m            1.1µs o/%s/ops:056 ▶ %s\x1b[0m     %s", ev.Pkg, refSevNames[l.Sev], l.Text))
 						}
 						w.Sigma = n > 1
 						res.Writes = append(res.Writes, w)
+						if ev.EchoAfter > 0 {
+							emit(main, ev.EchoAfter)
+						}
 					case scn.OpLevel, scn.OpPkg, scn.OpUnset:
 						cfg.apply(ev.Op)
 					}
@@ -454,7 +466,7 @@ func loadScenario(t *testing.T, name string) *scn.Scenario {
 }
 
 func TestRegSavedScenarios(t *testing.T) {
-	names := []string{"small-mixed.json", "via-twins.json", "overflow-never.json", "manual-triggers.json", "levels-and-tracers.json"}
+	names := []string{"small-mixed.json", "via-twins.json", "echo-tracer.json", "overflow-never.json", "manual-triggers.json", "levels-and-tracers.json"}
 	parallelTrials(t, len(names), 4, func(i int) *scn.Scenario { return loadScenario(t, names[i]) })
 }
 
@@ -508,5 +520,66 @@ func TestRegHelperPackagesLineIdentical(t *testing.T) {
 		if body && a[i] != b[i] {
 			t.Fatalf("line %d differs: %q vs %q", i+1, a[i], b[i])
 		}
+	}
+}
+
+// A plain line and a trace submission with the same text, severity, file and
+// line (the same handler once without and once with a tracer) are not
+// identical lines: the plain line arrives with exactly its own repetitions,
+// the trace once with all collected lines — in both orders. (Seeded change
+// C20-2: Equal treated such a pair as duplicates.)
+func TestRegOraclePlainEchoOfTraceMainLine(t *testing.T) {
+	sc := &scn.Scenario{
+		Sched: "never", Goroutines: 1,
+		Init: []scn.Op{{K: scn.OpLevel, Sev: 1}},
+		Phases: []scn.Phase{{G: [][]scn.Op{{
+			{K: scn.OpLines, N: 2, Sev: 3, Pkg: "a"},
+			{K: scn.OpTracer, Pkg: "a", Sevs: []int{2, 4}, Echo: 1},                // id 2: plain L0:2.1 then trace
+			{K: scn.OpTracer, Pkg: "a", Sevs: []int{1, 3, 5}, Echo: 2, EchoRep: 2}, // id 3: trace then plain L0:3.2 twice
+			{K: scn.OpLines, N: 1, Sev: 6, Pkg: "a"},
+		}}}},
+	}
+	for _, merge := range []bool{false, true} {
+		r := ideal(sc, merge)
+		rep := mustPass(t, fmt.Sprintf("ideal merge=%v", merge), sc, r)
+		if rep.EchoAdjacent != 2 {
+			t.Fatalf("adjacent plain/trace pairs counted: %d, want 2", rep.EchoAdjacent)
+		}
+	}
+	base := ideal(sc, true)
+	// stream: L0:0, L0:1, plain L0:2.1, trace L0:2.1, trace L0:3.2, plain L0:3.2 (dups=1), L0:4
+	if len(base.Writes) != 7 || len(base.Writes[2].Trace) != 0 || len(base.Writes[3].Trace) != 1 || len(base.Writes[4].Trace) != 2 || base.Writes[5].Dups != 1 {
+		t.Fatalf("set-up: unexpected ideal stream %+v", base.Writes)
+	}
+	// plain line swallows the following trace: (plain, duplicates=1), trace never arrives
+	r := clone(base)
+	r.Writes[2].Dups = 1
+	r.Writes = append(r.Writes[:3], r.Writes[4:]...)
+	mustFail(t, "trace merged into the plain line before it", sc, fix(r), "")
+	// trace swallows the following plain lines: (trace, duplicates=2)
+	r = clone(base)
+	r.Writes[4].Dups = 2
+	r.Writes = append(r.Writes[:5], r.Writes[6:]...)
+	mustFail(t, "plain lines merged into the trace before them", sc, fix(r), "tracer submission")
+	// trace swallows one of the two plain lines
+	r = clone(base)
+	r.Writes[4].Dups = 1
+	r.Writes[5].Dups = 0
+	mustFail(t, "one plain line merged into the trace", sc, r, "tracer submission")
+	// the trace arrives, but as a plain line (collected lines gone)
+	r = clone(base)
+	r.Writes[3].Trace = nil
+	mustFail(t, "trace lost its collected lines", sc, r, "")
+	// plain echo missing / one repetition too many
+	r = clone(base)
+	r.Writes = append(r.Writes[:2], r.Writes[3:]...)
+	mustFail(t, "plain echo missing", sc, fix(r), "")
+	r = clone(base)
+	r.Writes[5].Dups = 2
+	mustFail(t, "plain echo once too often", sc, r, "")
+	// with Trace disabled there is no tracer: the handler logs everything plainly; the echo is one more identical line
+	sc.Init = []scn.Op{{K: scn.OpLevel, Sev: 2}}
+	for _, merge := range []bool{false, true} {
+		mustPass(t, "no tracer", sc, ideal(sc, merge))
 	}
 }
